@@ -700,6 +700,18 @@ class SymNP(types.ModuleType):
     def fromfunction(*a, **k):
         return _np.fromfunction(*a, **k)
 
+    @staticmethod
+    def promote_types(t1, t2):
+        def fix(t):
+            if t is Alg:
+                return _np.float64
+            if t is Cx:
+                return _np.complex128
+            if t is SymBool:
+                return _np.bool_
+            return t
+        return _np.promote_types(fix(t1), fix(t2))
+
     generic = generic
 
     @property
